@@ -175,6 +175,7 @@ func TestCrashConform(t *testing.T) {
 	}
 	out := vh.NewResult()
 	defer out.Write()
+	defer machinery(out)
 	replayed, nsteps := 0, 0
 	for bi, b := range in.Behaviours {
 		for _, ns := range in.NewState {
@@ -231,6 +232,7 @@ func conformOne(in input, b []step, ns bool, be string, seed int64) (int, *vh.Di
 			r = w.setL1(s.A.N, modeOf(s.A.Outcome), k)
 		case "Snapshot":
 			r = w.snapshot(modeOf(s.A.Outcome), k)
+			alive = false // the graceful stop: the process ends whatever the put's outcome
 		case "Restart":
 			if err := w.restart(); err != nil {
 				return steps, div(i, "restart-error", nil, err.Error())
@@ -261,11 +263,21 @@ func conformOne(in input, b []step, ns bool, be string, seed int64) (int, *vh.Di
 				}
 			}
 			var per []post
-			r = w.prune(s.A.N, in.batchBytes(), mode, kk, func(int) { per = append(per, w.project()) })
+			r = w.prune(s.A.N, in.batchBytes(), mode, kk, func(int) {
+				p := w.project()
+				p.Floor = -1
+				if !w.fk.Dead() {
+					p.Floor = w.memFloor() // what readers between two batches are served from
+				}
+				per = append(per, p)
+			})
 			for x := range ps {
 				if x < len(per) && ps[x].A.Outcome != "fail" {
 					if f, e, o := diffDisk(ps[x].Post, per[x], !ns); f != "" {
 						return steps, div(i+1+x, "after-mutation-"+fmt.Sprint(x+1)+":"+f, e, o)
+					}
+					if per[x].Floor >= 0 && per[x].Floor != ps[x].Post.Floor {
+						return steps, div(i+1+x, "after-mutation-"+fmt.Sprint(x+1)+":retention-floor", ps[x].Post.Floor, per[x].Floor)
 					}
 				}
 			}
@@ -345,7 +357,12 @@ func (w *world) apply(op eop, batchBytes int, mode faultkv.Mode, k int) opResult
 	case "setl1":
 		return w.setL1(op.n, mode, k)
 	case "snapshot":
-		return w.snapshot(mode, k)
+		// the graceful stop: the snapshot put, then the process ends
+		r := w.snapshot(mode, k)
+		if err := w.restart(); err != nil {
+			return opResult{kind: "error", err: err}
+		}
+		return r
 	case "restart":
 		if err := w.restart(); err != nil {
 			return opResult{kind: "error", err: err}
@@ -517,6 +534,7 @@ func (e *enumRun) newWorld() *world {
 	if err != nil {
 		panic(fmt.Sprintf("crash engine: cannot build the initial world: %v", err))
 	}
+	w.freshAfterFail = true
 	return w
 }
 
@@ -587,6 +605,7 @@ func TestCrashEnum(t *testing.T) {
 	}
 	out := vh.NewResult()
 	defer out.Write()
+	defer machinery(out)
 	runs, trials := 0, 0
 	for bi, b := range in.Behaviours {
 		for _, ns := range in.NewState {
@@ -607,7 +626,17 @@ func TestCrashEnum(t *testing.T) {
 				}
 				n := 0
 				for fi := range e.ops {
-					for k := 1; k <= cnt[fi]; k++ {
+					// the fault goes into the operation's OWN durable mutations: the single
+					// batch/put of store, revert, setL1, snapshot (a preceding put of the lazy
+					// running-filter initialisation is not a target), every batch of a prune
+					first := cnt[fi]
+					switch e.ops[fi].name {
+					case "prune":
+						first = 1
+					case "query", "restart":
+						continue
+					}
+					for k := max(first, 1); k <= cnt[fi]; k++ {
 						for _, mode := range []faultkv.Mode{faultkv.FailAt, faultkv.CrashAfter} {
 							if in.MaxTrials > 0 && n >= in.MaxTrials {
 								continue
@@ -638,6 +667,7 @@ func TestCrashProbe(t *testing.T) {
 	}
 	out := vh.NewResult()
 	defer out.Write()
+	defer machinery(out)
 	seed := vh.Seed()
 	gen := consts{MaxH: 5, MaxVer: 3, InitH: 2, Boundary: 99, Genesis: true}
 	mustWorld := func(c consts) *world {
@@ -669,10 +699,12 @@ func TestCrashProbe(t *testing.T) {
 	// H2: a snapshot must not survive later block changes
 	{
 		w := mustWorld(gen)
-		w.snapshot(faultkv.Off, 0)
+		w.snapshot(faultkv.Off, 0) // graceful stop ...
+		_ = w.restart()            // ... start
+		found(w, bk{2, 1})         // (first use of the filter loads the snapshot)
 		w.revert(faultkv.Off, 0)
 		w.store(faultkv.Off, 0)
-		_ = w.restart()
+		_ = w.restart() // ungraceful
 		out.Stats["FixSnapshot"] = found(w, bk{2, 2})
 		w.close()
 	}
@@ -697,4 +729,12 @@ func TestCrashProbe(t *testing.T) {
 		w.close()
 	}
 	out.Done(5, 5)
+}
+
+// machinery records a panic of the harness itself (never a verdict): the driver turns it into exit 2.
+func machinery(out *vh.Result) {
+	if r := recover(); r != nil {
+		out.Stats["machinery_error"] = fmt.Sprint(r)
+		panic(r)
+	}
 }
